@@ -207,7 +207,7 @@ impl WindowSize {
             (WindowSize::Value(a), WindowSize::Mss(b)) => {
                 if let Some(mss_value) = mss {
                     if let Some(ratio_other) = a.checked_div(mss_value) {
-                        if *b as u16 == ratio_other {
+                        if *b as u16 == ratio_other && a.checked_rem(mss_value) == Some(0) {
                             debug!(
                                 "window size difference: a {}, b {} == ratio_other {}",
                                 a, b, ratio_other
